@@ -157,6 +157,12 @@ mod hook {
     pub fn sizes_from(i: usize) -> Vec<usize> {
         verif::READ_SIZES.lock().unwrap()[i..].to_vec()
     }
+    pub fn written_to(port: u16) -> u64 {
+        verif::written_to(port)
+    }
+    pub fn reset_written(port: u16) {
+        verif::reset_written(port)
+    }
 }
 #[cfg(not(memcrs_verif))]
 mod hook {
@@ -175,6 +181,10 @@ mod hook {
     pub fn sizes_from(_i: usize) -> Vec<usize> {
         vec![]
     }
+    pub fn written_to(_port: u16) -> u64 {
+        0
+    }
+    pub fn reset_written(_port: u16) {}
 }
 
 /// Make the next close of this socket abortive (RST).
@@ -194,6 +204,7 @@ pub fn abort(sock: &TcpStream) {
 
 pub struct ClientConn {
     pub sock: TcpStream,
+    pub received: u64, // bytes read from the socket so far
     pub closed: bool, // the server closed its side (EOF or reset seen)
     pub rx: Vec<u8>,
 }
@@ -208,7 +219,10 @@ impl ClientConn {
                     self.closed = true;
                     return;
                 }
-                Ok(n) => self.rx.extend_from_slice(&buf[..n]),
+                Ok(n) => {
+                    self.rx.extend_from_slice(&buf[..n]);
+                    self.received += n as u64;
+                }
                 Err(e) if e.kind() == std::io::ErrorKind::WouldBlock => return,
                 Err(e) if e.kind() == std::io::ErrorKind::Interrupted => continue,
                 Err(_) => {
@@ -216,6 +230,26 @@ impl ClientConn {
                     return;
                 }
             }
+        }
+    }
+}
+
+impl ClientConn {
+    /// Read until everything the server has handed to this connection's socket (counted by
+    /// the write hook) has arrived: what it wrote before it went idle may still be in
+    /// flight on the loopback.
+    fn settle(&mut self) {
+        let port = self.sock.local_addr().map(|a| a.port()).unwrap_or(0);
+        let t0 = Instant::now();
+        loop {
+            self.drain();
+            if self.closed || self.received >= hook::written_to(port) {
+                return;
+            }
+            if t0.elapsed() > WAIT {
+                return;
+            }
+            std::thread::sleep(Duration::from_micros(100));
         }
     }
 }
@@ -250,7 +284,8 @@ impl Driver {
         };
         sock.set_nodelay(true).unwrap();
         sock.set_nonblocking(true).unwrap();
-        self.conns.insert(i, ClientConn { sock, closed: false, rx: Vec::new() });
+        hook::reset_written(sock.local_addr().map(|a| a.port()).unwrap_or(0));
+        self.conns.insert(i, ClientConn { sock, closed: false, rx: Vec::new(), received: 0 });
         let t0 = Instant::now();
         while hook::begun() < begun0 + 1 {
             if t0.elapsed() > WAIT {
@@ -299,9 +334,9 @@ impl Driver {
             }
             std::thread::sleep(Duration::from_micros(200));
         }
-        // responses are written before the next read begins; give the loopback a moment
+        // responses are written before the next read begins, but may still be in flight
         let c = self.conns.get_mut(&i).unwrap();
-        c.drain();
+        c.settle();
         hook::sizes_from(idx0)
     }
 
@@ -350,7 +385,7 @@ impl Driver {
             }
             self.conns.insert(
                 i,
-                ClientConn { sock: TcpStream::connect(self.server.addr).unwrap(), closed: true, rx: Vec::new() },
+                ClientConn { sock: TcpStream::connect(self.server.addr).unwrap(), closed: true, rx: Vec::new(), received: 0 },
             );
         }
     }
